@@ -170,8 +170,13 @@ def structure(text: str) -> Tuple[List[Any], List[Tuple[str, str]]]:
 
 
 def scales_for(i: Optional[int]) -> List[Any]:
-    """k = 1 and one other factor for most documents, all four for every fifth (and for hand-written ones)."""
-    if i is None or i % 5 == 0:
+    """k = 1 and one other factor for most documents, all four for every fifth; value-equal factors of different
+    type one after the other (2, 2.0, Fraction(2): equal under == and hash) for every seventh and for hand-written ones."""
+    if i is None:
+        return list(SCALES) + [2.0, Fraction(2), 1.0, Fraction(1)]
+    if i % 7 == 3:
+        return [1, 2, 2.0, Fraction(2)]
+    if i % 5 == 0:
         return list(SCALES)
     return [1, SCALES[1 + i % 3]]
 
@@ -432,9 +437,10 @@ def oracle(gd: Optional[mdgen.GenDoc], text: str, impl: Dict[str, Any]) -> Tuple
         notes.append("sentinel-lost")
         return None, notes
     # the generator's belief about which braces stand in prose must be what marko parsed
-    if len(cm.scaled_value_strings) - (1 if cm.servings is not None else 0) != len(prose):
-        notes.append("belief-mismatch")
-        return None, notes
+    nsvs = len(cm.scaled_value_strings) - (1 if cm.servings is not None else 0)
+    if nsvs != len(prose):
+        return (f"{nsvs} brace expressions were recognised in prose, the document has {len(prose)} (a brace that overlaps a "
+                f"code span, inline HTML, autolink or backslash escape is ordinary text)"), notes
     flat = {id(r): (gi + 1, r) for gi, g in enumerate(direct) for r in g}
     order = [r for g in direct for r in g]
     for k, h in zip(SCALES, htmls):
@@ -615,6 +621,11 @@ HAND_DOCS = [
     # a literal "<" or &lt; in a plain title is text: title header and servings as usual
     "# Beans < Peas\n", "# Cakes < 5 mins for 4\n\n{2} eggs\n", "Beans < Peas\n===\n", "Cakes &lt; 5 mins serves 4\n=====\n\n    1 egg\n",
     "# Tea &lt; coffee to make 3 #\n", "# a &#60; b\n",
+    # sibling documents rendered one after the other in this process: blocks equal under == / hash (1/2 == 0.5,
+    # 2 == 2.0 == Fraction(2)) but written differently must each show their own spelling
+    "    1/2 cup milk\n", "    0.5 cup milk\n", "    2/4 cup milk\n",
+    "```recipe\nfry(2 eggs, 1/3 cup oil)\n```\n", "```recipe\nfry(2.0 eggs, 1/3 cup oil)\n```\n", "```recipe\nfry(2 eggs, 2/6 cup oil)\n```\n",
+    "# T for 2\n\n    3 eggs\n", "# T for 2\n\n    3.0 eggs\n", "# T for 2\n\n    6/2 eggs\n",
     # empty first headings: the title is "" (not None)
     "#\n", "# #\n", "#   \n\ntext {2}\n\n    1 egg\n", "# \n\n# Second for 2\n", "##\n\n#\n",
     # fence tags that merely contain the word recipe
@@ -632,7 +643,17 @@ HAND_DOCS = [
 ]
 
 
+# No brace expression at all: an opening brace before a code span / inline HTML / autolink / backslash escape that
+# swallows the closing brace.  Expectation: plain CommonMark of the same text.
+HAND_PLAIN_DOCS = [
+    "Use {2 `x} y` here\n", "a {<b>} c</b>\n", "{see <http://x/}> z\n", "{2 \\} x} y\n", "a {1 <span title=\"}\">x</span> b\n",
+    "- {1/2 `cup}` of\n- {<i>} x</i>\n", "> {3 <http://example.com/}> and `{4}`\n", "{5 `}` {\\{6}\n",
+]
+
+
 def _one_hand(text: str) -> Optional[Case]:
+    if text in HAND_PLAIN_DOCS:
+        return doc_case(text, mdgen.GenDoc(text=text, plain=text, comparable=True), ["hand-plain"])
     return doc_case(text, None, ["hand"])
 
 
@@ -847,7 +868,7 @@ def suites(tier: str, seed: int) -> List[Suite]:
     n = 260 if tier == "quick" else 4000
     cases = pmap(_one_doc, [(seed, i) for i in range(n)])
     md.cases = [x for x in cases if x is not None]
-    md.cases += [x for x in (_one_hand(t) for t in HAND_DOCS + mdgen.IMAGE_ALT_DOCS) if x is not None]
+    md.cases += [x for x in (_one_hand(t) for t in HAND_DOCS + mdgen.IMAGE_ALT_DOCS + HAND_PLAIN_DOCS) if x is not None]
     rng = random.Random(seed * 7919 + 13)
     nb = 600 if tier == "quick" else 8000
     seen = set()
